@@ -44,7 +44,7 @@ STUB_CACHE = ["task scheduling (seeded scheduler in a synctest bubble)", "proces
 
 register("C12", module="cachechecks", fn="case_c12", replay="replay_harness", binaries=("cache",),
          cases={"quick": 30, "thorough": 1500}, budget={"quick": 240, "thorough": 3000}, level="fault_enumeration",
-         rule="three scenario families on the real dirCache: (c12) for a generated output tree (files, nested/empty dirs, relative symlinks, exec bits, odd names; compressed or not; first store or re-store over a published entry) a crash is injected before EVERY filesystem operation of Store in turn (with and without torn writes), then a fresh process retrieves into another checkout; (c12m) fault-free random Store/Retrieve/restart sequences against a key->tree model; (c12c) 2-3 processes store/retrieve the SAME key concurrently with every FS operation a scheduling point. evaluations = crash runs + retrieves checked + concurrent runs; distinct_nontrivial = distinct (scenario, crash point) with the crash actually fired on a tree of >=2 entries, plus concurrent runs with >=5 real scheduling choices",
+         rule="three scenario families on the real dirCache: (c12) for a generated output tree (files, nested/empty dirs, relative symlinks, exec bits, odd names; compressed or not; first store or re-store over a published entry) a crash is injected before EVERY filesystem operation of Store in turn (with and without torn writes), then a fresh process retrieves into another checkout; (c12m) fault-free random Store/Retrieve/restart sequences against a key->tree model; (c12c) 2-3 processes store/retrieve the SAME key concurrently with every FS operation a scheduling point; (c12e) as (c12) but instead of a crash the n-th FS operation of Store fails with EIO/ENOSPC/EACCES/EXDEV, for every n. evaluations = crash runs + retrieves checked + concurrent runs; distinct_nontrivial = distinct (scenario, crash point) with the crash actually fired on a tree of >=2 entries, plus concurrent runs with >=5 real scheduling choices",
          assumptions=["crash model = process kill: data already written survives, files open for writing may be cut to a prefix; no power-loss reordering",
                       "a hit must restore exactly the complete tree of some Store of that key (old or new); a miss is always acceptable after a crash"],
          components={"real": REAL_CACHE, "stub": STUB_CACHE})
